@@ -12,6 +12,7 @@ import (
 	"strings"
 
 	"github.com/ansible/receptor/pkg/controlsvc"
+	"github.com/ansible/receptor/pkg/verifhook"
 )
 
 type workceptorCommandType struct {
@@ -292,6 +293,7 @@ func (c *workceptorCommand) ControlFunc(ctx context.Context, nc controlsvc.Netce
 		}
 		cfr := make(map[string]interface{})
 		cfr["unitid"] = worker.ID()
+		verifhook.Step("submit.stdin.create", worker.StatusFileName())
 		stdin, err := os.OpenFile(path.Join(worker.UnitDir(), "stdin"), os.O_CREATE+os.O_WRONLY, 0o600)
 		if err != nil {
 			return nil, err
@@ -310,6 +312,7 @@ func (c *workceptorCommand) ControlFunc(ctx context.Context, nc controlsvc.Netce
 			return nil, err
 		}
 		worker.UpdateBasicStatus(WorkStatePending, "Starting Worker", 0)
+		verifhook.Step("submit.start", worker.StatusFileName())
 		err = worker.Start()
 		if err != nil && !IsPending(err) {
 			worker.UpdateBasicStatus(WorkStateFailed, fmt.Sprintf("Error starting worker: %s", err), 0)
